@@ -37,7 +37,9 @@ def jsonable(v):
 def unjson_values(d):
     out = {}
     for k, v in d.items():
-        if isinstance(v, str):
+        if k == "_variant":
+            out[k] = v
+        elif isinstance(v, str):
             out[k] = Fraction(v)
         else:
             out[k] = v
@@ -110,16 +112,18 @@ class Unit:
         return None
 
     # ---- concrete run on the unpatched code
-    def concrete(self, values):
-        S = ConcMode(values)
+    variants = (None,)          # concrete-input variants tried when bug hunting (e.g. "negzero")
+
+    def concrete(self, values, variant=None):
+        S = ConcMode(values, variant=variant)
         args = self.build(S)
         out = call_catching(self.call, args)
         return S, args, out
 
-    def replay(self, label, values):
+    def replay(self, label, values, variant=None):
         """-> (status, detail); status in reproduced | not_reproduced | precondition"""
         try:
-            S, args, out = self.concrete(values)
+            S, args, out = self.concrete(values, variant) if variant is not None else self.concrete(values)
         except PreconditionFailed as e:
             return "precondition", str(e)
         try:
@@ -244,7 +248,13 @@ class Unit:
                 values = ctx.diverse_model(rng)
             if values is None:
                 return False
-            status, detail = self.replay(label, values)
+            for variant in self.variants:
+                status, detail = self.replay(label, values, variant)
+                if status in ("reproduced", "reproduced_other"):
+                    if variant:
+                        detail += f" [input variant: {variant}]"
+                        values = dict(values, _variant=variant)
+                    break
             if status in ("reproduced", "reproduced_other"):
                 state["violations"].append({
                     "unit": self.name, "label": label, "values": jsonable(values),
